@@ -224,13 +224,15 @@ theorem c03_frame (s : State) (hr : Reachable s) (a : Act) (r : Ptr) (n : Nat) (
     · split <;> rfl
     · rfl
 
-/-- the purge loop of `s_sba_free_to_bin` as written (`chunk_idx` from `length` down to 0,
-swap-with-last removal, upper bound `page_start + AWS_SBA_PAGE_SIZE`) removes exactly the chunks of
-the drained page from a list of chunk addresses, keeping every other chunk exactly once -/
-theorem c03_purge_exact (fc : List Addr) (p : Nat) (hfc : ∀ g ∈ fc, hdrSize ≤ g.off ∧ g.off < pageSize) :
-    (purgeLoop (p * pageSize + hdrSize) (p * pageSize + hdrSize + pageSize) fc.length fc).Perm
+/-- the purge loop of `s_sba_free_to_bin` as written — `chunk_idx` from `length` down to 0,
+swap-with-last removal, and `page_start` / `page_end` / the range test GENERATED from the current
+source text (`Gen/SbaConsts.lean`: `purgeStart`, `purgeEnd`, `purgeHit`) — removes exactly the chunks
+of the drained page from a list of chunk addresses of the bin's slot grid, keeping every other chunk
+exactly once; this includes the chunk at the very end of a page (32-byte class) -/
+theorem c03_purge_exact (fc : List Addr) (p i : Nat) (hi : i < binCount) (hfc : ∀ g ∈ fc, SlotOff (binSize i) g.off) :
+    (purgeLoop (purgeStart (p * pageSize) (binSize i)) (purgeEnd (p * pageSize) (binSize i)) fc.length fc).Perm
       (fc.filter (fun g => g.page != p)) :=
-  purge_perm_page p hfc
+  purge_perm_page p (binSize_mem hi) hfc
 
 /-! ### interleavings -/
 
